@@ -621,6 +621,8 @@ impl<K: CacheKey + 'static> AsyncCache<K> for DiskCache<K> {
                 // Found file on disk - try to read it and add to index
                 match self.read_file(&file_path).await {
                     Ok(data) => {
+                        #[cfg(feature = "verif-hooks")]
+                        crate::verif_hooks::sched_point("disk.get.fallback.after_read_file");
                         let size_bytes = data.len();
                         // The file may be removed by a concurrent remove()/clear()
                         // right after it was read; that must not fail the get.
